@@ -109,6 +109,7 @@ class ProgramOptionsSave(Contract):
         if len(parses) != 1:
             raise ExtractionError('ProgramOptions::parse not found')
         copies = set()      # (canonical, alias): _vm.at(canonical).value() = _vm[alias].value()
+        helper_info = {}    # (canonical, alias) -> (call node in parse, helper definition, {string parameter id -> literal at this call})
         for n in _walk(parses[0]):
             if n.get('kind') in ('CXXOperatorCallExpr', 'BinaryOperator') and len(n.get('inner', [])) >= 2:
                 callee = n['inner'][0]
@@ -171,6 +172,7 @@ class ProgramOptionsSave(Contract):
                             cl, al = strlit(args_[lp[0]]), strlit(args_[rp[0]])
                             if cl and al:
                                 copies.add((cl, al))
+                                helper_info[(cl, al)] = (n, fd, {ps_[lp[0]]['id']: cl, ps_[rp[0]]['id']: al})
         # ---- guard chain of every copy: the conditions (those that consult the variables map) of the enclosing `if`s, outermost first.
         # Two shapes keep "the value saved = the value the run uses" (C13) for every invocation:
         #   [count(alias)]                                  the alias value always replaces the stored value of the current name
@@ -181,13 +183,20 @@ class ProgramOptionsSave(Contract):
         guard_chain = {}          # pair -> list of guard labels
         erased = {}               # alias -> True if `_vm.erase("alias")` stands directly in the branch guarded by count(alias)
 
-        def _classify(cond):
+        def _names_in(node, subst):
+            out = [x.get('value', '').strip('"') for x in _walk(node) if x.get('kind') == 'StringLiteral']
+            if subst:
+                out += [subst[(x.get('referencedDecl') or {}).get('id')] for x in _walk(node) if x.get('kind') == 'DeclRefExpr' and (x.get('referencedDecl') or {}).get('id') in subst]
+            return out
+
+        def _classify(cond, subst=None, mapids=()):
             mems = [x.get('name') for x in _walk(cond) if x.get('kind') == 'MemberExpr']
-            if '_vm' not in mems:
+            about_map = '_vm' in mems or any((x.get('referencedDecl') or {}).get('id') in mapids for x in _walk(cond) if x.get('kind') == 'DeclRefExpr')
+            if not about_map:
                 return None                      # not about the variables map (file exists, stream good, ...): context, not a guard
             logic = [x for x in _walk(cond) if x.get('kind') == 'BinaryOperator' and x.get('opcode') in ('&&', '||')]
             neg = [x for x in _walk(cond) if x.get('kind') == 'UnaryOperator' and x.get('opcode') == '!']
-            lits = [x.get('value', '').strip('"') for x in _walk(cond) if x.get('kind') == 'StringLiteral']
+            lits = _names_in(cond, subst)
             if logic or neg or len(lits) != 1:
                 return 'other'
             if set(mems) <= {'count', '_vm'} and 'count' in mems:
@@ -204,18 +213,20 @@ class ProgramOptionsSave(Contract):
                         continue
                     yield from _shallow(ch)
 
-        def _scan_ifs(fnode, resolve):
+        def _scan_ifs(fnode, resolve, subst=None, mapids=(), prefix=()):
             def rec(node, chain):
                 if not isinstance(node, dict):
                     return
                 if node.get('kind') == 'IfStmt':
                     inner = node.get('inner', [])
-                    lab = _classify(inner[0])
+                    lab = _classify(inner[0], subst, mapids)
                     thn_chain = chain + ([lab] if lab is not None else [])
                     if lab is not None and lab.startswith('count:') and len(inner) > 1:
                         for a_ in _shallow(inner[1]):
                             if a_.get('kind') == 'CXXMemberCallExpr' and a_['inner'][0].get('kind') == 'MemberExpr' and a_['inner'][0].get('name') == 'erase' and \
-                                    any(y.get('kind') == 'MemberExpr' and y.get('name') == '_vm' for y in _walk(a_['inner'][0])) and strlit(a_) == lab[6:]:
+                                    (any(y.get('kind') == 'MemberExpr' and y.get('name') == '_vm' for y in _walk(a_['inner'][0])) or
+                                     any((y.get('referencedDecl') or {}).get('id') in mapids for y in _walk(a_['inner'][0]) if y.get('kind') == 'DeclRefExpr')) and \
+                                    lab[6:] in _names_in(a_, subst):
                                 erased[lab[6:]] = True
                     rec(inner[0], chain)
                     if len(inner) > 1:
@@ -228,7 +239,7 @@ class ProgramOptionsSave(Contract):
                     guard_chain[pair] = list(chain)
                 for ch in node.get('inner', []) or []:
                     rec(ch, chain)
-            rec(fnode, [])
+            rec(fnode, list(prefix))
 
         def shape_of(pair):
             ch = guard_chain.get(pair)
@@ -251,6 +262,33 @@ class ProgramOptionsSave(Contract):
                         return (l_[0], r_[0])
             return None
         _scan_ifs(parses[0], _direct)
+        # copies done through a small helper: guards at the call site in parse() followed by the guards inside the helper, with the helper's
+        # string parameters read as the literals of this call and its map parameter as the variables map
+        for pr, (call_n, fd_, subst_) in helper_info.items():
+            if pr in guard_chain:
+                continue
+            site_chain = {}
+
+            def _is_call(node, call_n=call_n):
+                return ('site', 'site') if node is call_n else None
+            saved = dict(guard_chain)
+            guard_chain.clear()
+            _scan_ifs(parses[0], _is_call)
+            outer = guard_chain.get(('site', 'site'))
+            guard_chain.clear()
+            guard_chain.update(saved)
+            if outer is None:
+                continue
+            mapids = tuple(p_['id'] for p_ in params(fd_) if 'variables_map' in p_['type'].get('qualType', ''))
+
+            def _assign_in_helper(a_, pr=pr):
+                if a_.get('kind') in ('CXXOperatorCallExpr', 'BinaryOperator') and len(a_.get('inner', [])) >= 2:
+                    isassign = (a_.get('kind') == 'BinaryOperator' and a_.get('opcode') == '=') or \
+                               any((y.get('referencedDecl') or {}).get('name') == 'operator=' for y in _walk(a_['inner'][0]))
+                    if isassign and any(y.get('kind') == 'MemberExpr' and y.get('name') == 'value' for y in _walk(a_)):
+                        return pr
+                return None
+            _scan_ifs(body(fd_), _assign_in_helper, subst_, mapids, prefix=outer)
         for pr in copies:
             if pr not in guard_chain:
                 # the copy is done through a helper function: its guards are partly inside the helper, which this analysis does not follow
